@@ -59,7 +59,7 @@ CHECKS = {
              'guess_format maps exactly the five extensions; nice_console_errors maps OSError/CommandException/other/'
              'KeyboardInterrupt to 2/code/3/1; every CommandException site has a non-zero code (AST scan). End-to-end '
              'equality of files with library results is a bounded native stand-in.',
-        text_extra='Also proved: whenever shapely accepts the GeoJSON value, geometry_argument returns that very geometry (no tidying, no rejection).',
+        text_extra='Also proved: whenever shapely accepts the GeoJSON value, geometry_argument returns that very geometry (no tidying, no rejection). extract-points: the table handed to extract_dataframe is the very object read_csv returned -- no row removed, reordered or relabelled on the way.',
         note=TRUST + 'Assumed: PY-RE (regex semantics; any consistent group decomposition), PY-FLOAT-GRAMMAR, PY-JSON, SH-SHAPE, '
              'SH-BOX; contracts/cli.py stubs for open_dataset, extract_dataframe, to_netcdf_with_fixes, the four writers '
              '(verified under C05/C15/C17 or IO); argparse wiring (main, add_arguments) only exercised by the bounded '
@@ -93,7 +93,7 @@ CHECKS = {
              'real accessor / State / bind code: first attachment is kept, second bind refused, copies independent; an AST '
              'scan shows State.bind_convention is the only store to .convention and Convention.bind its only caller; '
              'a taint scan finds no hash/id/clock/randomness/set iteration in detection code.',
-        text_extra='Also proved: a class already known through its entry point can be registered by hand and then wins ties (decision table row with a tie between two built-in conventions).',
+        text_extra='Also proved: a class already known through its entry point can be registered by hand and then wins ties (decision table row with a tie between two built-in conventions). Also proved for registered conventions answering arbitrary integers (not only the three named levels): the highest answer wins, ties by registration order then entry-point order.',
         note=TRUST + 'Assumed: XR-ACCESSOR-CACHE (one cached accessor object per Dataset object, copies start empty), '
              'ENTRYPOINTS-DETERMINISTIC, PY-SORTED-STABLE. Histories are enumerated up to a bound (stated), the write-once '
              'invariant behind them is the unbounded argument.',
@@ -109,7 +109,7 @@ CHECKS = {
              'remove, convention class) changes at least one chunk; hash_int emits 4 bytes iff the value fits int32 else '
              'OverflowError; no set iteration / hash() / id() occurs. One obligation (attribute chunk is a function of '
              'attribute values) is refuted under the PY-MARSHAL contract and listed as a known finding.',
-        text_extra='Also proved: asking twice for the default key of one dataset object with an in-place edit of a geometry variable in between gives the key of the edited geometry (nothing is remembered between calls); attribute names with a leading underscore count like any other.',
+        text_extra='Also proved: asking twice for the default key of one dataset object with an in-place edit of a geometry variable in between gives the key of the edited geometry (nothing is remembered between calls); attribute names with a leading underscore count like any other. Also proved: when the encoding names a narrower dtype than the values held, a single-value edit still changes the stream (the bytes hashed are those of the values held).',
         note=TRUST + 'Assumed: A-HASH (BLAKE2b collision free), PY-MARSHAL (injective; bytes depend on reference state; stable '
              'for the same objects within a process), NP-TOBYTES, A-INT32-SIZE, and that a differing chunk at a framed '
              'position makes the concatenated streams differ (the shape chunk has no ndim prefix: A-SHAPE-FRAMING).',
@@ -187,11 +187,18 @@ CHECKS = {
              'use the selected grid and are not geometry, empty and mixed-kind requests are refused. extract_points '
              '(real body) against the contract of get_index_for_point for 1..3 points with every hit/miss pattern: '
              "'error' raises NonIntersectingPoints naming exactly the misses, 'drop' keeps exactly the hits in request "
-             'order labelled with their original positions. extract_dataframe (pandas merge) is bounded natively. '
-             "One obligation family ('drop' when every point misses) is a known finding.",
-        text_extra='The contract of get_index_for_point that the point scenarios rely on is re-verified in this check (C04 scenarios).',
+             'order labelled with their original positions. extract_dataframe (real body, with _dataframe_to_dataset) for tables of 1..3 rows '
+             'with symbolic coordinates and columns, row labels 0..n-1 or shifted, every hit/miss pattern, each policy: row p is looked up as '
+             "the point (longitude column, latitude column) of row p; 'error' names exactly the rows outside the model; 'drop' keeps exactly the "
+             "hits, 'fill' every row with missing data for the misses, labelled with their positions in the table; every kept variable holds the "
+             'value of the looked-up cell; every table column is carried along row for row (paired by position whatever the table index); the '
+             'coordinate columns become longitude / latitude coordinates; the table is not modified. '
+             "Two obligation families ('drop' / 'fill' when every point misses) are a known finding.",
+        text_extra='The contract of get_index_for_point that the point scenarios rely on is re-verified in this check (C04 scenarios). History: a selection made after an earlier selection and an in-place change of the dataset (a variable replaced, one added) returns what the dataset holds now.',
         note=TRUST + 'Assumed: XR-ISEL-POINTWISE, XR-DROP-VARS, XR-ASSIGN-COORDS, XR-SQUEEZE, contract of get_index_for_point (C04); '
-             'list length concrete (1..3). XR-MERGE-JOIN / PD-TO-XARRAY: bounded only.',
+             'list / table length concrete (1..3). Stated library contracts for the table path: PD-FRAME (column access, reset_index(drop=True), copy, to_xarray), '
+             'NP-COLUMN-STACK (numpy.c_), SH-POINTS (a point is a function of its two coordinates), XR-MERGE-ALIGN (inner / outer join on an increasing integer index, '
+             'NA fill with dtype promotion) -- exercised on real tables by the bounded native part.',
         technique='AST-generated verification conditions over the real source at Skolem positions (uninterpreted values), z3; bounded native byte-for-byte comparison',
         design_ref='Part III C05'),
     'C19': dict(
@@ -204,6 +211,7 @@ CHECKS = {
              'data_array together with array, leftover dimensions and mismatched vector dimensions are refused; quiver arrow n '
              'sits at face centre n with the components of cell n; every animation frame t sets the values at time t of the '
              'cells whose outlines were drawn. 5 convention configurations incl. transposed grid dimensions, all extents.',
+        text_extra='History: a collection built after an array of the same name was plotted on the same dataset carries the values and colour limits of the array given now; a leftover dimension is still refused.',
         note=TRUST + 'Assumed: MPL-POLYCOLLECTION / MPL-QUIVER pair their arguments by position; contracts of polygons / mask / face_centres '
              '(C02/C06); SELECTION-THEORY; NP-NANMINMAX-SKOLEM. Real artists are inspected by the bounded native stand-in.',
         technique='AST-generated verification conditions over the real source against callee contracts and recording stand-ins for matplotlib, z3; bounded native inspection of real artists',
@@ -236,6 +244,7 @@ CHECKS = {
              'wet; depth dimension and coordinates removed; all other variables, coordinates and attributes bit-identical; input '
              'not modified. The cumulative-count argument uses lemma cumsum-monotone, proved by induction (base and step are '
              'discharged obligations) and instantiated explicitly (ghost lemma calls).',
+        text_extra='The depth coordinates may be given as any iterable, also a one-shot iterator or generator (scenarios for tuple / iterator / generator).',
         note=TRUST + 'Assumed: XR-CUMSUM-SKIPNA, XR-ARGMAX-FIRST, XR-ISEL-POINTWISE, XR-MERGE / XR-DROP-DIMS, PY-STR-HASH, INDUCTION-NAT (meta rule), '
              'A-FINITE-DATA (values are finite or NaN), STATIC-FLOOR-SHARED (variables of one group share the wet pattern; the violation '
              'of it by a gapless first variable is known finding D17, found natively). dataset.ems.ocean_floor() and byte-level values '
@@ -274,7 +283,7 @@ CHECKS = {
              'Meshes: masks given by arbitrary kept-sets (new index = rank); row k of every face / edge / node variable is the k-th kept '
              'row, bit-identical, in the original order; variables without mesh dimensions pass through; with or without edge '
              'dimension / edge_node table.',
-        text_extra='Also proved: applying a mask does not modify the mask (frame condition; a mask is applied to several datasets); every table of a mesh carries its own index base.',
+        text_extra='Also proved: applying a mask does not modify the mask (frame condition; a mask is applied to several datasets); every table of a mesh carries its own index base. Also proved: a short variable whose missing value is stored as a double (any double, NaN included) gets exactly that value outside the selection (promotion to float64), not a number of the short type.',
         note=TRUST + 'Assumed: XR-WHERE, XR-ISEL, XR-NETCDF-ROUNDTRIP / XR-OPEN-MFDATASET (what decoding does to fill values and dtypes is NOT '
              'modelled), XR-MAYBE-PROMOTE, SELECTION-THEORY / SELECTION-EXTENSIONALITY, QUANT-SKOLEM, VALID-UGRID-MASK (C07), NP-MA. The real '
              'netCDF round trip, masks saved / reloaded and applied to a second dataset, and integer fill behaviour on disk are the bounded '
@@ -325,7 +334,9 @@ CHECKS = {
              'intersected with the path, and nothing else (point contacts dropped), gives exactly one segment; that segment carries the piece itself, the '
              'cell\'s linear and native index and polygon, its two ends as start / end point with their distances along the path, start <= end; '
              'the list is sorted ascending by (start_distance, end_distance); no segments iff no cell intersects (FOREACH / COLLECT loop rule, '
-             'any number of cells and pieces). BOUNDED (native, not proved): what the geometry terms denote -- shapely intersections, '
+             'any number of cells and pieces). distance_along_line(point) (real body, any number of path vertices): ValueError exactly for positions outside [0, 1], '
+             'otherwise the accumulated distance of the last vertex at or before the point plus the planar distance between that vertex and the point, '
+             'both projected from the data CRS into that vertex\'s own projection (abstract cartopy / shapely terms). BOUNDED (native, not proved): what the geometry terms denote -- shapely intersections, '
              'cartopy projections, Transect.points and distance_along_line, floating-point distances -- is outside the verifier; 60 transects (5 datasets incl. a 1 km grid, 12 polylines: '
              'through, inside one cell, leaving and re-entering a cell, over holes, along a cell edge, missing the model, every heading) are '
              'checked against shapely / pyproj oracles: each piece lies in its cell and on the path, names that cell, pieces add up to the '
